@@ -203,10 +203,7 @@ class BOWFunction(Function):
 
         now = datetime.datetime.fromtimestamp(context.timestamp)
         dt = now.replace(hour=12)  # using midday practically avoids problems due to DST
-        if s > 0:
-            dt -= datetime.timedelta(days=dt.weekday() + 7 - s)
-        else:
-            dt -= datetime.timedelta(days=dt.weekday())
+        dt -= datetime.timedelta(days=(dt.weekday() - s) % 7)
 
         year, month, day = dt.year, dt.month, dt.day
         if n >= 0:
